@@ -783,6 +783,7 @@ package vegeta
 
 //@ func NewCSVEncoder$1
 //@   property C07 C09
+//@   fields Result Attack Seq Code Timestamp Latency BytesOut BytesIn Error Body Method URL Headers
 //@   returns (err)
 //@   requires [non-nil] r != nil && enc != nil
 //@   modifies *enc
@@ -843,6 +844,7 @@ package vegeta
 // body via Base64Bytes).
 //@ func easyjsonBd1621b8EncodeGithubComTsenartVegetaV12Lib
 //@   property C07
+//@   fields Result Attack Seq Code Timestamp Latency BytesOut BytesIn Error Body Method URL Headers
 //@   requires [non-nil] out != nil
 //@   modifies *out
 //@   ghost nkeys int
